@@ -405,8 +405,17 @@ func report(eng *Engine, prop, tier string, seed int, specs []*HarnessSpec, resu
 				for m, n := range h.Unsupported {
 					fmt.Printf("  unsupported x%d: %s\n", n, firstLines(m, 30))
 				}
+				seenN := map[string]bool{}
 				for _, n := range h.Notes {
-					fmt.Printf("  note: %s\n", firstLines(n, 3))
+					if !seenN[n] {
+						seenN[n] = true
+						fmt.Printf("  note: %s\n", firstLines(n, 3))
+					}
+				}
+				for st := range h.Stubs {
+					if strings.HasPrefix(st, "init:") {
+						fmt.Printf("  partial-init: %s\n", firstLines(st, 3))
+					}
 				}
 			}
 		}
